@@ -5,6 +5,8 @@ import (
 	"math"
 	"strconv"
 	"strings"
+
+	"github.com/flosch/pongo2/v6"
 )
 
 func init() { props["C07"] = runC07 }
@@ -656,6 +658,11 @@ func runC07(r *run) {
 			p := &printer{rg: g.rg}
 			src := p.pr(e, 0)
 			emit(caseT{"render", w.args("{% autoescape off %}{{ "+src+p.sp()+"}}{% endautoescape %}|{% if "+src+" %}T{% else %}F{% endif %}", ctx)})
+			if i%8 == 0 {
+				// the same expression over context numbers of other Go kinds: what an expression
+				// means does not depend on whether 3 arrives as int, int64, uint8 or int32
+				emit(caseT{"gokinds", []string{hx("{% autoescape off %}{{ " + src + " }}{% endautoescape %}|{% if " + src + " %}T{% else %}F{% endif %}")}})
+			}
 		}
 	}
 	driveCases(r, gen, func(r *run, c caseT) { execC07(r, c) })
@@ -666,7 +673,68 @@ func runC07(r *run) {
 // executor run in the same process, so the tree of the case being executed is kept here.
 var c07Trees = map[string]*ex{}
 
+func execGoKinds(r *run, c caseT) {
+	src := unhx(c.args[0])
+	tpl, err := pongo2.FromString(src)
+	if err != nil {
+		r.emit(c.op, c.args, "cerr")
+		return
+	}
+	base := c07Ctx().goContext()
+	run := func(cx pongo2.Context) string {
+		out, xerr, p := executeIn(tpl, cx)
+		switch {
+		case p != nil:
+			return "panic:" + fmt.Sprint(p)
+		case xerr != nil:
+			return "xerr"
+		}
+		return obsOK(out)
+	}
+	want := run(base)
+	id := r.emit(c.op, c.args, "gokinds:"+want)
+	r.nontrivial(c.args[0])
+	conv := []func(int) any{func(i int) any { return int64(i) }, func(i int) any { return int32(i) }, func(i int) any { return int8(i) }, func(i int) any {
+		if i >= 0 {
+			return uint8(i)
+		}
+		return int16(i)
+	}, func(i int) any {
+		if i >= 0 {
+			return uint64(i)
+		}
+		return int64(i)
+	}}
+	for vi, cv := range conv {
+		cx := pongo2.Context{}
+		for k, v := range base {
+			cx[k] = v
+			if iv, ok := v.(int); ok && iv > -100 && iv < 100 {
+				cx[k] = cv(iv)
+			}
+			if lv, ok := v.([]any); ok {
+				nl := make([]any, len(lv))
+				for j, it := range lv {
+					nl[j] = it
+					if iv, ok := it.(int); ok {
+						nl[j] = cv(iv)
+					}
+				}
+				cx[k] = nl
+			}
+		}
+		if got := run(cx); got != want {
+			r.reject(id, "an expression gives another result when the context's numbers have another Go integer kind", map[string]any{"template": src, "variant": vi, "with_int": want, "observed": got})
+			return
+		}
+	}
+}
+
 func execC07(r *run, c caseT) {
+	if c.op == "gokinds" {
+		execGoKinds(r, c)
+		return
+	}
 	w, src, ctx := worldFromArgs(c.args)
 	o, _ := w.render(src, false, ctx)
 	id := r.emit(c.op, c.args, o.obs)
